@@ -155,3 +155,24 @@ fn a_queued_idle_does_not_shorten_the_wait() {
     assert!(t.elapsed() >= Duration::from_millis(90), "dispatch(None) did not wait for the timer that bounds it ({:?})", t.elapsed());
     assert_eq!(log, vec!["timer", "idle2"], "the timer that bounded the wait fires in that dispatch, before the idles");
 }
+
+/// run(): the iteration in which a source callback asks the loop to stop is still a whole dispatch -- the idles that are
+/// pending (inserted earlier, or by that very callback) run after its events, before run() returns
+#[test]
+fn idles_run_in_the_iteration_in_which_a_callback_stops_the_loop() {
+    let mut el: EventLoop<Log> = EventLoop::try_new().unwrap();
+    let h = el.handle();
+    let sig = el.get_signal();
+    let (p, s) = make_ping().unwrap();
+    let h2 = h.clone();
+    h.insert_source(s, move |_, _, log: &mut Log| {
+        log.push("source");
+        h2.insert_idle(|log: &mut Log| log.push("idle-from-callback"));
+        sig.stop();
+    }).unwrap();
+    h.insert_idle(|log: &mut Log| log.push("idle-before"));
+    p.ping();
+    let mut log = Log::new();
+    el.run(Duration::from_millis(200), &mut log, |log| log.push("cb")).unwrap();
+    assert_eq!(log, vec!["source", "idle-before", "idle-from-callback", "cb"]);
+}
